@@ -341,6 +341,14 @@ pub struct Vm {
     pub unit_registry: UnitRegistry,
 }
 
+#[cfg(feature = "verif")]
+impl Vm {
+    /// Verification hook: read a stack slot.
+    pub fn verif_stack_get(&self, index: usize) -> Option<Value> {
+        self.stack.get(index).cloned()
+    }
+}
+
 impl Vm {
     pub fn new() -> Self {
         Self {
